@@ -76,6 +76,20 @@ def check_calc(s, acc):
                                   dict(kind='linecol-dict', api=api),
                                   observed=repr(gotd), expected=list(exp))
             acc.outcome((exp[0] - (1 if lo is None else lo), exp[1] - (fo if exp[0] == (1 if lo is None else lo) else co), n - pos))
+        # the same objects queried again in other orders: descending, and (short strings) every ordered pair
+        orders = [list(range(n, -1, -1))]
+        if n <= 5:
+            orders.append([q for pair in ((a, b2) for a in range(n + 1) for b2 in range(n + 1)) for q in pair])
+        for order in orders:
+            for oi, pos in enumerate(order):
+                exp = ref_linecol(s, pos, lo, fo, co)
+                for api, fn in (('calc', calc.pos_to_lineno_colno), ('walker', lw.pos_to_lineno_colno)):
+                    st, got = run_guarded(fn, pos)
+                    acc.count('positions')
+                    if st != 'ok' or tuple(got) != exp:
+                        acc.violation(ID, 'calc', dict(s=s, pos=pos, offsets=[lo, fo, co], api=api, order=order[:oi + 1][-6:]),
+                                      dict(kind='linecol-depends-on-query-order', api=api), observed=repr(got), expected=list(exp))
+                        break
 
 
 ERR_OFFSETS = [(None, 0, 0), (5, 3, 2), (0, 0, 2)]
@@ -124,6 +138,8 @@ def check_err(s, acc):
 def check_case(sub, case, acc):
     if sub == 'calc':
         check_calc(case['s'], acc)
+        # a replay reports every problem of the string; keep those of the stored kind of case
+        acc.violations = [v for v in acc.violations if ('order' in v['case']) == ('order' in case)]
     else:
         check_err(case['s'], acc)
 
